@@ -15,8 +15,11 @@ C6  `if a != b: A else: B`      ->  `if a == b: B else: A`      (also `not in`, 
 C7  `a > b` / `a >= b`           ->  `b < a` / `b <= a`
 C8  `x: T = v`                   ->  `x = v`                     (annotated assignment with a value; name or attribute target)
 C9  `for x in (A, B): S(x)`      ->  `S(A); S(B)`                (display of <= 8 plain / dotted names; body neither re-binds x nor breaks / continues)
-C10 `a, b = x, y`                ->  `a = x; b = y`              (plain name targets, none of which occurs in x, y)
+C9b the same for `for a, b in T` with T a display of tuples of names / literals, or a module-level name of this file bound once to such a tuple
+C10 `a, b = x, y`               ->  `a = x; b = y`              (plain name targets, none of which occurs in x, y)
 C11 `MappingProxyType({..})`     ->  `{..}` ;  `frozenset({..})` / `frozenset([..])` -> `{..}`
+C12 (whole program, nslsa/optfold.py) an optional parameter added by a change that no call site uses is its default; so is the field it is stored in
+C13 `_NAME = "literal"` at module level (ALL_CAPS, bound once in the file, a string or a number): reads of `_NAME` in that file are the literal
 """
 from __future__ import annotations
 
@@ -71,31 +74,48 @@ class _Canon(ast.NodeTransformer):
     def visit_For(self, node):
         # C9  `for x in (A, B): S(x)`  ->  `S(A); S(B)`  for a display of at most 8 plain names / dotted names (a loop over
         # classes or enum members), x a name the body neither re-binds nor deletes, no break / continue / else
+        # C9b the display may be a module-level constant tuple of this file (bound once), and its elements may be tuples of
+        # names / literals unpacked by a tuple target: `for cls, name in _TABLE: S(cls, name)`
         self.generic_visit(node)
         it = node.iter
-        if not (isinstance(it, (ast.Tuple, ast.List)) and 1 <= len(it.elts) <= 8 and isinstance(node.target, ast.Name) and not node.orelse):
+        if isinstance(it, ast.Name) and it.id in getattr(self, "module_tuples", {}):
+            it = self.module_tuples[it.id]
+        if not (isinstance(it, (ast.Tuple, ast.List)) and 1 <= len(it.elts) <= 8 and not node.orelse):
             return node
-        if not all(isinstance(e, (ast.Name, ast.Attribute)) and all(isinstance(x, (ast.Name, ast.Attribute)) for x in ast.walk(e) if not isinstance(x, ast.expr_context)) for e in it.elts):
+
+        def plain(e):
+            return isinstance(e, ast.Constant) or (isinstance(e, (ast.Name, ast.Attribute)) and all(isinstance(x, (ast.Name, ast.Attribute)) for x in ast.walk(e) if not isinstance(x, ast.expr_context)))
+
+        if isinstance(node.target, ast.Name):
+            if not all(plain(e) and not isinstance(e, ast.Constant) for e in it.elts):
+                return node
+            tgts = [node.target.id]
+            rows = [[e] for e in it.elts]
+        elif isinstance(node.target, ast.Tuple) and all(isinstance(t, ast.Name) for t in node.target.elts) and len({t.id for t in node.target.elts}) == len(node.target.elts):
+            tgts = [t.id for t in node.target.elts]
+            if not all(isinstance(e, ast.Tuple) and len(e.elts) == len(tgts) and all(plain(x) for x in e.elts) for e in it.elts):
+                return node
+            rows = [list(e.elts) for e in it.elts]
+        else:
             return node
-        tgt = node.target.id
         for s in node.body:
             for x in ast.walk(s):
-                if isinstance(x, (ast.Break, ast.Continue)) or (isinstance(x, ast.Name) and x.id == tgt and not isinstance(x.ctx, ast.Load)) \
+                if isinstance(x, (ast.Break, ast.Continue)) or (isinstance(x, ast.Name) and x.id in tgts and not isinstance(x.ctx, ast.Load)) \
                         or isinstance(x, (ast.FunctionDef, ast.Lambda, ast.ClassDef)):
                     return node
         import copy
 
         class _S(ast.NodeTransformer):
-            def __init__(self, e):
-                self.e = e
+            def __init__(self, m):
+                self.m = m
 
             def visit_Name(self, n):
-                return copy.deepcopy(self.e) if n.id == tgt and isinstance(n.ctx, ast.Load) else n
+                return copy.deepcopy(self.m[n.id]) if n.id in self.m and isinstance(n.ctx, ast.Load) else n
 
         out = []
-        for e in it.elts:
+        for row in rows:
             for s in node.body:
-                out.append(ast.copy_location(_S(e).visit(copy.deepcopy(s)), s))
+                out.append(ast.copy_location(_S(dict(zip(tgts, row))).visit(copy.deepcopy(s)), s))
         return out
 
     def visit_UnaryOp(self, node):
@@ -316,6 +336,47 @@ def _unrename(tree: ast.Module, rel: str):
 def canonicalise(tree: ast.Module, rel: str = None) -> ast.Module:
     if rel is not None:
         _unrename(tree, rel)
-    tree = _Canon().visit(tree)
+    cn = _Canon()
+    # module-level names bound exactly once, to a tuple display, and never re-bound inside a function (`global`)
+    counts, vals = {}, {}
+    for n in ast.walk(tree):
+        if isinstance(n, ast.Name) and isinstance(n.ctx, (ast.Store, ast.Del)):
+            counts[n.id] = counts.get(n.id, 0) + 1
+        elif isinstance(n, ast.Global):
+            for g in n.names:
+                counts[g] = counts.get(g, 0) + 2
+    for st in tree.body:
+        if isinstance(st, ast.Assign) and len(st.targets) == 1 and isinstance(st.targets[0], ast.Name) and isinstance(st.value, ast.Tuple):
+            vals[st.targets[0].id] = st.value
+        elif isinstance(st, ast.AnnAssign) and isinstance(st.target, ast.Name) and isinstance(st.value, ast.Tuple):
+            vals[st.target.id] = st.value
+    cn.module_tuples = {k: v for k, v in vals.items() if counts.get(k) == 1}
+    # C13  a module-level name bound exactly once in this file, to a string or number literal, and never used as a parameter
+    # name: reads of it in this file are the literal (`_METADATA_TYPES = "types"`; `_SHIFT = 16`)
+    for n in ast.walk(tree):
+        if isinstance(n, ast.arg):
+            counts[n.arg] = counts.get(n.arg, 0) + 2
+        elif isinstance(n, (ast.Import, ast.ImportFrom)):
+            for a_ in n.names:
+                nm_ = (a_.asname or a_.name).split(".")[0]
+                counts[nm_] = counts.get(nm_, 0) + 2
+        elif isinstance(n, (ast.FunctionDef, ast.AsyncFunctionDef, ast.ClassDef)):
+            counts[n.name] = counts.get(n.name, 0) + 2
+    scalars = {}
+    for st in tree.body:
+        if isinstance(st, ast.Assign) and len(st.targets) == 1 and isinstance(st.targets[0], ast.Name) and isinstance(st.value, ast.Constant) \
+                and isinstance(st.value.value, (str, int, float)) and not isinstance(st.value.value, bool):
+            nm_ = st.targets[0].id
+            if counts.get(nm_) == 1 and not (nm_.startswith("__") and nm_.endswith("__")) and nm_.upper() == nm_ and nm_.lstrip("_")[:1].isalpha():
+                scalars[nm_] = st.value.value
+    if scalars:
+        class _Named(ast.NodeTransformer):
+            def visit_Name(self, n):
+                if isinstance(n.ctx, ast.Load) and n.id in scalars:
+                    return ast.copy_location(ast.Constant(scalars[n.id]), n)
+                return n
+
+        tree = _Named().visit(tree)
+    tree = cn.visit(tree)
     ast.fix_missing_locations(tree)
     return tree
